@@ -3,6 +3,7 @@ package props
 import (
 	"fmt"
 	"go/token"
+	"go/types"
 	"strings"
 
 	"fsverif/eng"
@@ -22,6 +23,55 @@ func runC18(c *Ctx) {
 	// resolved follow-paths may keep a wildcard: the prefix-only flag must be
 	// computed from the merged list (shared with C10)
 	r10_10(c, "R18.5")
+	r18_6(c, "R18.6")
+}
+
+// R18.6: a component is expanded as a wildcard at most once.
+//
+// readSymlink expands a wildcard in the last component by listing the
+// directory and reading each MATCHED NAME literally. A matched name may itself
+// contain '*', '?' or '[': treated as a pattern again it matches other
+// entries (the link itself is never read) or itself (no termination). The
+// expansion is therefore guarded by the caller's flag and the calls for the
+// matched names pass false.
+func r18_6(c *Ctx, rule string) {
+	c.R.Rule(rule, "symlinkResolver.readSymlink: listing the directory is unreachable when allowWildcard is false, and the calls for matched names pass false")
+	fn := c.Fn(rule, "fsutil.(*symlinkResolver).readSymlink")
+	if fn == nil {
+		return
+	}
+	var flag *ssa.Parameter
+	for _, q := range fn.Params {
+		if b, ok := q.Type().Underlying().(*types.Basic); ok && b.Kind() == types.Bool {
+			flag = q
+		}
+	}
+	if flag == nil {
+		c.R.Fail(rule, c.name(fn)+"/flag", c.P.Pos(fn.Pos()), "readSymlink has no flag that switches wildcard expansion off for matched names")
+		return
+	}
+	isList := c.callPred("fsutil.readDir", "os.ReadDir", "path/filepath.Match")
+	n := 0
+	eng.Instrs(fn, func(in ssa.Instruction) {
+		if isList(in) {
+			n++
+		}
+	})
+	c.R.Floor(rule, "directory listing / matching calls in readSymlink", n, 1)
+	c.ObUnreachable(rule, c.name(fn)+"/expansion-needs-flag", fn, map[string]bool{"p:" + flag.Name(): false}, isList, "expanding a wildcard", "the caller asked for a literal name (allowWildcard is false)")
+	rec := 0
+	for _, call := range c.P.CallsTo(fn, c.name(fn)) {
+		if call.Parent() != fn && !c.P.Transparent(call.Parent()) {
+			continue
+		}
+		rec++
+		a := call.Common().Args
+		k, isK := a[len(a)-1].(*ssa.Const)
+		c.R.Check(isK && eng.IsBoolConst(k, false), rule, c.siteName(call)+"/literal", c.pos(call), "matched names are read literally", "a matched directory entry is handed back to readSymlink with wildcard expansion allowed: its own name is treated as a pattern")
+	}
+	if rec == 0 {
+		c.R.OK(rule, c.name(fn)+"/literal", c.P.Pos(fn.Pos()), "matched names are not handed back to readSymlink at all (read by a function without wildcard handling)")
+	}
 }
 
 func r18_1(c *Ctx, rule string) {
